@@ -106,6 +106,14 @@ class DensityBase:
 class DensityFromOrbs(DensityBase):
     """evaluate_density_using_evaluated_orbs(gamma, Phi)[n] = sum_ab gamma_ab Phi_a(n) Phi_b(n); validation"""
 
+    fp = True  # cross-check: the same contract on the unmodified float64 code at sampled inputs (bounded)
+
+    def fp_shapes(self, tier):
+        sh = self.shapes(tier)
+        step = max(1, len(sh) // (6 if tier == "quick" else 24))
+        return sh[::step][:(6 if tier == "quick" else 24)]
+
+
     function = "gbasis.evals.density.evaluate_density_using_evaluated_orbs"
 
     def shapes(self, tier):
@@ -205,6 +213,14 @@ class DensityThreshold(DensityBase):
 class ReducedDM(DensityBase):
     """evaluate_deriv_reduced_density_matrix(o1, o2)[n] = sum_ab gamma_ab Phi^{o1}_a(n) Phi^{o2}_b(n)"""
 
+    fp = True  # cross-check: the same contract on the unmodified float64 code at sampled inputs (bounded)
+
+    def fp_shapes(self, tier):
+        sh = self.shapes(tier)
+        step = max(1, len(sh) // (6 if tier == "quick" else 24))
+        return sh[::step][:(6 if tier == "quick" else 24)]
+
+
     function = "gbasis.evals.density.evaluate_deriv_reduced_density_matrix"
 
     def shapes(self, tier):
@@ -233,6 +249,14 @@ class ReducedDM(DensityBase):
 class DerivDensity(DensityBase):
     """evaluate_deriv_density(orders)[n] = full Leibniz expansion of the derivative of
     sum_ab gamma_ab Phi_a Phi_b (the l_x shortcut with its factor 2 must reproduce it)"""
+
+    fp = True  # cross-check: the same contract on the unmodified float64 code at sampled inputs (bounded)
+
+    def fp_shapes(self, tier):
+        sh = self.shapes(tier)
+        step = max(1, len(sh) // (6 if tier == "quick" else 24))
+        return sh[::step][:(6 if tier == "quick" else 24)]
+
 
     function = "gbasis.evals.density.evaluate_deriv_density"
 
@@ -266,6 +290,14 @@ class DerivDensity(DensityBase):
 
 class GradLapHess(DensityBase):
     """gradient, Laplacian, Hessian (all nine entries) and the relations between them"""
+
+    fp = True  # cross-check: the same contract on the unmodified float64 code at sampled inputs (bounded)
+
+    def fp_shapes(self, tier):
+        sh = self.shapes(tier)
+        step = max(1, len(sh) // (6 if tier == "quick" else 24))
+        return sh[::step][:(6 if tier == "quick" else 24)]
+
 
     function = "gbasis.evals.density.evaluate_density_gradient / _laplacian / _hessian"
 
